@@ -239,4 +239,8 @@ def check(ctx):
     ctx.rule("R7", "every partial update reaches its handler: the unclaimed-datagram discard of the receive queue can only remove the datagram it marked - not a retransmitted, byte-identical STATP that follows it (C07's queue model borrowed)")
     from .c07 import queue_model
     queue_model(ctx.borrowed("R7", "C07", key_prefix="AsyncPeekableQueue::mark"), repo, "R3")
+    ctx.rule("R8", "protocol-range acknowledgement numbers: the counter both stacks draw the STATQ sequence from issues exactly 1..191 for kind False, each the successor of the previous one, never 0 and never a command-range value (C16's exhaustive fixpoint on both implementations; that the acknowledgement draws kind False is R4)")
+    from . import c16 as _c16
+    for impl in _c16.IMPLS:
+        _c16.fixpoint(ctx.borrowed("R8", "C16", only=("R1", "R2"), key_contains="::protocol-"), repo, impl, ctx.tier)
     ctx.note("Not decided: interleaving of partial updates with refreshes; an observer raising during the sync apply loop skips the for-else clear (documented residual).")
